@@ -107,6 +107,15 @@ class EmdRecorder:
         self.G.ot.emd2 = self.orig
 
 
+def emd_tables_or_none(calls, n, K, ovo):
+    """emd_tables, or None when the recorded POT calls are not the ones the model expects (another number / order of calls:
+    the model comparison is then impossible for this case — the caller records a broken correspondence and goes on to the oracle)"""
+    try:
+        return emd_tables(calls, n, K, ovo)
+    except Exception:
+        return None
+
+
 def emd_tables(calls, n, K, ovo):
     """lay the recorded POT results out as the driver expects: K*K pair entries then K uniform entries"""
     sz = 1 + 2 * n
